@@ -186,7 +186,8 @@ def finish(out: Outcome, level, checker_cmd, explanation=None, extra_cov=None):
           "known_findings_reported": len(out.violations) - len(new_viol),
           "obligations_failing_as_known_findings": [o["name"] for o in kf_obs]}
     # evidence describes /repo; a run against a scratch copy (VERIF_REPO, used by the seed / harmless sweeps) keeps its file in its work dir
-    evdir = os.path.join(VERIF, "evidence") if os.path.realpath(xrun.REPO) == "/repo" else os.path.join(xrun.WORK, "evidence")
+    scratch = os.environ.get("VERIF_REPO") not in (None, "", "/repo")
+    evdir = os.path.join(xrun.WORK, "evidence") if scratch else os.path.join(VERIF, "evidence")
     os.makedirs(evdir, exist_ok=True)
     with open(os.path.join(evdir, f"{out.prop}.json"), "w") as f:
         json.dump(ev, f, indent=1)
